@@ -37,7 +37,13 @@ printf '[net]\noffline = true\n[build]\ntarget-dir = "%s/target"\n' "$BASE" > "$
 ( cd "$BASE/chunksim" && CHUNKSIM_REPO="$WT" CARGO_NET_OFFLINE=true cargo build --release --offline >> "$BASE/build.log" 2>&1 ) || { tail -30 "$BASE/build.log"; echo "MUTANT-BUILD-FAILED (chunksim)"; }
 rc=0
 for ID in ${IDS//,/ }; do
-  VERIF_OUT_DIR="$BASE/out" "$BASE/target/release/verif-sim" run "$ID" "$TIER"
+  SIMBIN="$BASE/target/release/verif-sim"
+  if [ "$ID" = "C20" ]; then
+    ( cd "$BASE/sim" && CARGO_TARGET_DIR="$BASE/target/atomic" RUSTC_WRAPPER=/verif/tools/rustc_atomic.sh CARGO_NET_OFFLINE=true cargo build --release --offline >> "$BASE/build.log" 2>&1 ) || { tail -30 "$BASE/build.log"; echo "MUTANT-BUILD-FAILED (atomic)"; }
+    ln -sf "$BASE/target/release/verif-chunksim" "$BASE/target/atomic/release/verif-chunksim"
+    SIMBIN="$BASE/target/atomic/release/verif-sim"
+  fi
+  VERIF_OUT_DIR="$BASE/out" "$SIMBIN" run "$ID" "$TIER"
   r=$?; echo "MUTANT-RESULT slot=$SLOT id=$ID exit=$r"
   [ $r -ne 0 ] && rc=$r
 done
